@@ -35,7 +35,9 @@ func (r *c21Run) Sample() any { return r }
 var c21Ops = []string{"read", "write", "browse", "value", "nodeclass", "browsename", "description", "displayname", "accesslevel", "useraccesslevel",
 	"attributes", "children", "references", "translate", "subscribe", "monitor", "unmonitor", "cancel", "setmode", "modifysub", "settriggering", "stats",
 	"call", "findservers", "getendpoints", "registernodes", "unregisternodes", "historyread", "namespacearray", "findnamespace", "updatenamespaces",
-	"monitor-add", "monitor-remove", "publish-wait"}
+	"monitor-add", "monitor-remove", "publish-wait",
+	// an application that keeps using a Subscription object after Cancel / Unsubscribe
+	"reuse-monitor", "reuse-unmonitor", "reuse-cancel", "reuse-setmode", "reuse-stats", "monitor-unsubscribe"}
 
 func (r *c21Run) Setup(s *sim.Sim) {
 	p := s.Plan
@@ -361,8 +363,9 @@ func (r *c21Run) Main(s *sim.Sim) {
 		for range notifs {
 		}
 	}()
-	var sub *opcua.Subscription
+	var sub, cancelled *opcua.Subscription
 	var msub *monitor.Subscription
+	unsubscribed := false
 	nm, _ := monitor.NewNodeMonitor(cl)
 	nm.SetErrorHandler(func(*opcua.Client, *monitor.Subscription, error) {})
 	node := cl.Node(ua.NewNumericNodeID(1, 5))
@@ -416,7 +419,34 @@ func (r *c21Run) Main(s *sim.Sim) {
 		case "cancel":
 			if sub != nil {
 				err = sub.Cancel(octx)
-				sub = nil
+				cancelled, sub = sub, nil
+			}
+		case "reuse-monitor":
+			if cancelled != nil {
+				_, err = cancelled.Monitor(octx, ua.TimestampsToReturnBoth, opcua.NewMonitoredItemCreateRequestWithDefaults(node.ID, ua.AttributeIDValue, 200))
+			}
+		case "reuse-unmonitor":
+			if cancelled != nil {
+				_, err = cancelled.Unmonitor(octx, 10)
+			}
+		case "reuse-cancel":
+			if cancelled != nil {
+				err = cancelled.Cancel(octx)
+			}
+		case "reuse-setmode":
+			if cancelled != nil {
+				_, err = cancelled.SetMonitoringMode(octx, ua.MonitoringModeReporting, 10)
+			}
+		case "reuse-stats":
+			if cancelled != nil {
+				_, err = cancelled.Stats(octx)
+			}
+		case "monitor-unsubscribe":
+			// (a second Unsubscribe panics by design - "TODO: make idempotent" - whatever the
+			// server answers, so that is not a response-driven panic and is not generated)
+			if msub != nil && !unsubscribed {
+				unsubscribed = true
+				err = msub.Unsubscribe(octx) // msub stays: a later monitor-add calls AddNodes on it
 			}
 		case "setmode":
 			if sub != nil {
